@@ -5,6 +5,7 @@ import JSight.DocCursorThm
 import JSight.DocCursorFuel
 import JSight.DocCursorLink
 import JSight.DocCursorSafe
+import JSight.DocCursorRej
 import JSight.SchemaObjProofs
 /-!
 # C11 — Results are deterministic, history-independent and stable: what a theorem can carry
@@ -326,3 +327,109 @@ example : setupFirst hA [] = true ∧ setupFirst hB [] = true ∧
 
 end schemaObj
 end Props.C11
+
+/-! ## The json `Document` on REJECTED texts: the incremental machine is the whole-text scanner model there too
+
+`C11_doc_accepted_is_whole_text_model` covers the texts `JsonScan.events` accepts. Here: the texts it rejects. The
+whole-text model drops its accumulated events when it answers an error; `DocCursor.eventsSeen` is that model with the
+events KEPT (`seenFrom`: the accumulator of `eventsLoop` at the failing byte; at the end of input additionally the
+literal-end of a FINISHED literal, which `Next` delivers before it reports "unexpected end" for the container around it,
+e.g. `[1`). Proofs: `JSight/DocCursorRej.lean` (stack-shape invariant `InvA` / `InvB`, `R_top`: no literal-begin below
+the top). -/
+namespace Props.C11
+section docRejected
+open DocCursor
+
+/-- On every text the whole-text JSON scanner model REJECTS (`events o t = .error e`; `e` is never a crash:
+`events_no_crash`), the `Document` machine answers the same error: `e` is "invalid character" (301) or "unexpected end"
+(303) at an index `p`; `Check` of a fresh document is that error as `checkS` says, `Len` is that error as `lengthS` says,
+and the `NextLexeme` deliveries are exactly the events the whole-text model had delivered (`eventsSeen`), each as a
+lexeme without error, followed by that error (which then stays: `C11_doc_error_sticky`). -/
+theorem C11_doc_rejected_is_whole_text_model (t : List UInt8) (o : Bool) (e : JsonScan.ErrS)
+    (h : JsonScan.events o t = .error e) :
+    ∃ c p, ((e = .invalidChar p ∧ c = 301) ∨ (e = .unexpectedEOF p ∧ c = 303)) ∧
+      JsonScan.checkS o t = .error e ∧ checkText t o = .err c p ∧
+      JsonScan.lengthS o t = .error e ∧ lenText t o = .err c p ∧
+      scanAll t o ((eventsSeen o t).length + 1) = (eventsSeen o t).map .lex ++ [.err c p] := by
+  obtain ⟨c, p, hc, h1, h2, h3⟩ := rejected_main t o e h
+  exact ⟨c, p, hc, by unfold JsonScan.checkS; rw [h], h1, by unfold JsonScan.lengthS; rw [h], h2, h3⟩
+
+/-- the same as a closed form for EVERY `NextLexeme` of a fresh document on a rejected text: the `k`-th delivery is the
+`k`-th event the whole-text model had delivered, as a lexeme without error; from the first index behind them on, the
+error of the whole-text model, for ever -/
+theorem C11_doc_rejected_all_deliveries (t : List UInt8) (o : Bool) (e : JsonScan.ErrS)
+    (h : JsonScan.events o t = .error e) :
+    ∃ c p, ((e = .invalidChar p ∧ c = 301) ∨ (e = .unexpectedEOF p ∧ c = 303)) ∧
+      ∀ k, lexAt t o k = match (eventsSeen o t)[k]? with
+        | some ev => .lex ev
+        | none => .err c p := rejected_all t o e h
+
+/-- `eventsSeen` loses nothing: on an accepted text it is the list of events -/
+theorem C11_doc_seen_is_events_on_accepted (t : List UInt8) (o : Bool) (evs : List JsonScan.Ev)
+    (h : JsonScan.events o t = .ok evs) : eventsSeen o t = evs := eventsSeen_of_ok o t evs h
+
+/-- `Check` of a fresh strict document (no `AllowTrailingNonSpaceCharacters`) answers OK iff the text is one RFC 8259
+JSON text (through `C05_check_iff_rfc` and `C05_machines_agree`; the empty-document rule is part of both sides: a text
+without a lexeme is not a JSON text); and, in both modes, the answer is `ErrEmptyJson` exactly when the whole-text model
+accepts without delivering a lexeme. -/
+theorem C11_doc_check_is_rfc (t : List UInt8) :
+    (checkText t false = .ok ↔ Rfc.accepts t = true) ∧
+    (∀ o, checkText t o = .err 203 0 ↔ ∃ evs, JsonScan.events o t = .ok evs ∧ JsonScan.nonTop evs = []) :=
+  ⟨checkText_ok_iff_rfc t, fun o => checkText_empty_iff t o⟩
+
+/-- after ANY history of `NextLexeme` / `Check` / `Len` calls, `Check()` of a strict document answers OK iff its text is
+one RFC 8259 JSON text -/
+theorem C11_doc_check_history_free_rfc (t : List UInt8) (ops : List Op) :
+    (((Doc.new t false).run ops).2.step .check).1 = .check .ok ↔ Rfc.accepts t = true :=
+  check_after_ok_iff_rfc t ops
+
+/-! Non-vacuity: the four texts of the brief, and `[1` where `Next` closes the finished number before the error -/
+
+/-- `{x}`: invalid character at 1 after the object-begin -/
+example : JsonScan.events false [123, 120, 125] = .error (.invalidChar 1) ∧
+    eventsSeen false [123, 120, 125] = [⟨.objB, 0, 0⟩] ∧
+    scanAll [123, 120, 125] false 2 = [.lex ⟨.objB, 0, 0⟩, .err 301 1] ∧
+    checkText [123, 120, 125] false = .err 301 1 ∧ lenText [123, 120, 125] false = .err 301 1 :=
+  ⟨by rfl, by decide, by decide, by decide, by decide⟩
+/-- `[1,]` = `[91, 49, 44, 93]`: five lexemes, then invalid character at 3 -/
+example : JsonScan.events false [91, 49, 44, 93] = .error (.invalidChar 3) ∧
+    eventsSeen false [91, 49, 44, 93] = [⟨.arrB, 0, 0⟩, ⟨.itemB, 1, 1⟩, ⟨.litB, 1, 1⟩, ⟨.litE, 1, 1⟩, ⟨.itemE, 1, 1⟩] ∧
+    scanAll [91, 49, 44, 93] false 6 =
+      [.lex ⟨.arrB, 0, 0⟩, .lex ⟨.itemB, 1, 1⟩, .lex ⟨.litB, 1, 1⟩, .lex ⟨.litE, 1, 1⟩, .lex ⟨.itemE, 1, 1⟩, .err 301 3] ∧
+    checkText [91, 49, 44, 93] false = .err 301 3 :=
+  ⟨by rfl, by decide, by decide, by decide⟩
+/-- `"a` = `[34, 97]`: unexpected end inside the string -/
+example : JsonScan.events false [34, 97] = .error (.unexpectedEOF 1) ∧
+    eventsSeen false [34, 97] = [⟨.litB, 0, 0⟩] ∧
+    scanAll [34, 97] false 2 = [.lex ⟨.litB, 0, 0⟩, .err 303 1] ∧
+    checkText [34, 97] false = .err 303 1 ∧ lenText [34, 97] false = .err 303 1 :=
+  ⟨by rfl, by decide, by decide, by decide, by decide⟩
+/-- `1 x` without the option: the literal, then invalid character at 2 -/
+example : JsonScan.events false [49, 32, 120] = .error (.invalidChar 2) ∧
+    eventsSeen false [49, 32, 120] = [⟨.litB, 0, 0⟩, ⟨.litE, 0, 0⟩] ∧
+    scanAll [49, 32, 120] false 3 = [.lex ⟨.litB, 0, 0⟩, .lex ⟨.litE, 0, 0⟩, .err 301 2] ∧
+    checkText [49, 32, 120] false = .err 301 2 :=
+  ⟨by rfl, by decide, by decide, by decide⟩
+/-- `[1` = `[91, 49]`: the finished number is closed (literal-end) before "unexpected end" is reported for the array -/
+example : JsonScan.events false [91, 49] = .error (.unexpectedEOF 1) ∧
+    eventsSeen false [91, 49] = [⟨.arrB, 0, 0⟩, ⟨.itemB, 1, 1⟩, ⟨.litB, 1, 1⟩, ⟨.litE, 1, 1⟩] ∧
+    scanAll [91, 49] false 5 =
+      [.lex ⟨.arrB, 0, 0⟩, .lex ⟨.itemB, 1, 1⟩, .lex ⟨.litB, 1, 1⟩, .lex ⟨.litE, 1, 1⟩, .err 303 1] :=
+  ⟨by rfl, by decide, by decide⟩
+/-- closed form on `{x}`: delivery 0 is the object-begin, deliveries 1, 2, 7 are the error -/
+example : [0, 1, 2, 7].map (lexAt [123, 120, 125] false) = [.lex ⟨.objB, 0, 0⟩, .err 301 1, .err 301 1, .err 301 1] := by
+  decide
+/-- RFC side: `1` is a JSON text and `Check` answers OK after a history; `{x}` is not; the blank text is "empty" -/
+example : Rfc.accepts [49] = true ∧ checkText [49] false = .ok ∧
+    (((Doc.new [49] false).run [.next, .len, .next]).2.step .check).1 = .check .ok ∧
+    Rfc.accepts [123, 120, 125] = false ∧ checkText [32] false = .err 203 0 ∧
+    JsonScan.events false [32] = .ok [] := ⟨by decide, by decide, by decide, by decide, by decide, by rfl⟩
+
+end docRejected
+end Props.C11
+
+#print axioms Props.C11.C11_doc_rejected_is_whole_text_model
+#print axioms Props.C11.C11_doc_rejected_all_deliveries
+#print axioms Props.C11.C11_doc_seen_is_events_on_accepted
+#print axioms Props.C11.C11_doc_check_is_rfc
+#print axioms Props.C11.C11_doc_check_history_free_rfc
